@@ -38,6 +38,11 @@ verus! {
 // [trusted] String::len is the UTF-8 byte length (uninterpreted): widens the accepted subset, no proof depends on its value
 pub uninterp spec fn spec_utf8_len(s: Seq<char>) -> usize;
 pub assume_specification[String::len](s: &String) -> (r: usize) ensures r == spec_utf8_len(s@);
+// [trusted] std integer helpers a refactoring is likely to reach for (widen the accepted subset; std semantics as documented)
+pub assume_specification[u64::next_multiple_of](x: u64, m: u64) -> (r: u64)
+    requires m != 0, x + m <= u64::MAX,
+    ensures r % m == 0, r >= x, r - x < m;
+
 }
 use vstd::std_specs::hash::*;
 use std::collections::HashMap;
